@@ -30,3 +30,22 @@ func (c *SyncMap) VerifCleanup() { c.t.invokeCleanup() }
 
 // VerifCleanup runs one cleanup cycle (delete expired, then evict) synchronously.
 func (c *ShardedMapOf[V]) VerifCleanup() { c.t.invokeCleanup() }
+
+// VerifDump returns a deep copy of the label index (cache name -> label -> keys).
+func (i *InvalidationIndex) VerifDump() map[string]map[string][]string {
+	i.mu.Lock()
+	defer i.mu.Unlock()
+
+	res := make(map[string]map[string][]string, len(i.labeledKeysByName))
+
+	for name, labeledKeys := range i.labeledKeysByName {
+		lk := make(map[string][]string, len(labeledKeys))
+		for label, keys := range labeledKeys {
+			lk[label] = append([]string(nil), keys...)
+		}
+
+		res[name] = lk
+	}
+
+	return res
+}
